@@ -120,9 +120,9 @@ package table
 //@   props C06
 //@   safety off
 //@   requires !sameblock(key, w.dataBlock.prevKey) && len(key) <= 1099511627776 && len(value) <= 1099511627776
-//@   ensures [C06,C13:strictly-increasing] (result == nil && old(w.nEntries) > 0) ==> tcmp(old(bytes(w.dataBlock.prevKey)), old(bytes(key))) < 0
-//@   ensures [C06,C13:counts-accepted-keys] result == nil ==> w.nEntries == old(w.nEntries) + 1
-//@   ensures [C06,C13:rejected-keys-not-counted] result != nil ==> w.nEntries == old(w.nEntries)
+//@   ensures [C06:strictly-increasing] (result == nil && old(w.nEntries) > 0) ==> tcmp(old(bytes(w.dataBlock.prevKey)), old(bytes(key))) < 0
+//@   ensures [C06:counts-accepted-keys] result == nil ==> w.nEntries == old(w.nEntries) + 1
+//@   ensures [C06:rejected-keys-not-counted] result != nil ==> w.nEntries == old(w.nEntries)
 //@ count (*Writer).Append
 
 // C20: a value found in a table is handed out as a private copy (block buffers are shared through the block cache
